@@ -373,6 +373,10 @@ class Wrapper(GroupNode):
     merging = False
 
     def query(self, parser):
+        if not self.nodes:
+            # The wrapped node was itself an operator that has since been
+            # removed (e.g. "NOT NOT x", "NOT ANDNOT x")
+            return None
         q = self.nodes[0].query(parser)
         if q:
             return attach(self.qclass(q), self)
